@@ -32,6 +32,31 @@ type l2Loop struct {
 	onStep   func() *core.Violation
 	weight   func(c *Call) int // weight of completing a parked call (default 6)
 	steps    int
+	// idle: a harness task that is parked with nothing to do (an injector with an empty queue); it does
+	// not count as "something can still move" when the scenario waits for quiescence
+	idle      func(g *simrt.G) bool
+	idleSteps bool
+}
+
+// runnableForStep: what a scheduling step may resume.  With idleSteps (a per-run knob) resuming an idle
+// harness task counts as a step too: real goroutines are then scheduled sparsely, work piles up in
+// channels and is later handled in bursts - schedules a dense scheduler hardly produces.
+func (l *l2Loop) runnableForStep() []*simrt.G {
+	if l.idleSteps {
+		return simrt.Runnable()
+	}
+	return l.busyRunnable()
+}
+
+// busyRunnable: the runnable goroutines that are not idle harness tasks.
+func (l *l2Loop) busyRunnable() []*simrt.G {
+	var out []*simrt.G
+	for _, g := range simrt.Runnable() {
+		if l.idle == nil || !l.idle(g) {
+			out = append(out, g)
+		}
+	}
+	return out
 }
 
 var eventSeq int64
@@ -49,7 +74,7 @@ func (l *l2Loop) run(maxSteps int, done func() bool) *core.Violation {
 		r.Mark()
 		l.s.Tick()
 		var st []l2Stim
-		for _, g := range simrt.Runnable() {
+		for _, g := range l.runnableForStep() {
 			g := g
 			st = append(st, l2Stim{"run " + g.Name, 10, func() {
 				if l.r.KeepLog {
@@ -84,7 +109,7 @@ func (l *l2Loop) run(maxSteps int, done func() bool) *core.Violation {
 			// nothing can move: only timers could; let virtual time pass once, then give up
 			time.Sleep(time.Minute)
 			l.s.Settle()
-			if len(simrt.Runnable()) == 0 && len(l.s.Pending()) == 0 {
+			if len(l.busyRunnable()) == 0 && len(l.s.Pending()) == 0 {
 				return nil
 			}
 			continue
@@ -115,11 +140,17 @@ func (l *l2Loop) drain(rounds int, done func() bool) {
 		}
 		moved := false
 		for _, g := range simrt.Runnable() {
+			if l.r.KeepLog {
+				l.r.Logf("    drain: run %s", g)
+			}
 			simrt.Resume(g)
 			l.s.Settle()
 			moved = true
 		}
 		for _, c := range l.s.Pending() {
+			if l.r.KeepLog {
+				l.r.Logf("    drain: complete %s", c.Key)
+			}
 			l.s.Complete(c, nil)
 			l.s.Settle() // one woken goroutine at a time: two running at once would race for the choice stream
 			moved = true
@@ -135,11 +166,14 @@ func (l *l2Loop) drain(rounds int, done func() bool) {
 func (l *l2Loop) drainNoComplete(rounds int) {
 	for i := 0; i < rounds; i++ {
 		l.s.Settle()
-		rs := simrt.Runnable()
+		rs := l.busyRunnable()
 		if len(rs) == 0 {
 			return
 		}
 		for _, g := range rs {
+			if l.r.KeepLog {
+				l.r.Logf("    sync-drain: run %s", g)
+			}
 			simrt.Resume(g)
 			l.s.Settle()
 		}
